@@ -706,6 +706,7 @@ pub fn run(tier: Tier) -> i32 {
     st.sample(4, || json!({"history": {"format": "csv_optional", "persistence": "persist_response_in_memory", "parallelism": 3, "runs": [[0, 2], [1, 4, 3]]}}));
     let assumptions = vec![
         "shared state between workers is only reachable through the five hooked mutex sites and the output file (source scan recorded in DESIGN §2.3); rayon's own scheduler is trusted".into(),
+        crate::engine::scan_shared_state(),
         "each schedule re-runs the scenario from scratch (new file, new sink, new progress bar); replaying a prefix must reproduce the same (task, event) at every point, otherwise the run stops as a machinery error".into(),
         "CSV cells are compared as rendered; the mapping of the schedule scenarios uses optional paths so that formatting itself does not alter responses".into(),
     ];
